@@ -10,7 +10,7 @@
    other datatype.  The harness validates it against the real DisplayContext on every run. *)
 From Coq Require Import ZArith List Bool Arith Lia.
 From Coq Require String.
-From Verif Require Model.PyMini Model.PrimsRender Gen.SrcRender Proofs.SrcRender Proofs.SrcRenderTop Proofs.SrcRenderCsv Proofs.SrcRenderText.
+From Verif Require Model.PyMini Model.PrimsRender Gen.SrcRender Proofs.SrcRender Proofs.SrcRenderTop Proofs.SrcRenderCsv Proofs.SrcRenderText Proofs.SrcRenderText2 Model.PrimsRenderPos Proofs.SrcRenderAmount.
 Import ListNotations.
 From Verif Require Import Base.Out Base.StableSort Base.PyValue Model.Render Model.RenderCheck Proofs.RenderProofs Proofs.RenderCheckProofs.
 
@@ -218,7 +218,8 @@ Proof. vm_compute. reflexivity. Qed.
    strftime, as_tuple and the f-string alignment specs are assumed to do) yields the renderer functions of
    Model/Render.v the theorems above are stated over. *)
 Import Coq.Strings.String Verif.Model.PyMini Verif.Model.PrimsRender Verif.Gen.SrcRender Verif.Proofs.SrcRender
-  Verif.Proofs.SrcRenderTop Verif.Proofs.SrcRenderCsv Verif.Proofs.SrcRenderText.
+  Verif.Proofs.SrcRenderTop Verif.Proofs.SrcRenderCsv Verif.Proofs.SrcRenderText Verif.Proofs.SrcRenderText2
+  Verif.Model.PrimsRenderPos Verif.Proofs.SrcRenderAmount.
 
 Theorem C16_source_base_prepare : forall (call_ref : nat -> list pv -> pv) (w p : pv) (rest : env),
   call_method call_ref prims_render render_base_prepare (("maxwidth", w) :: ("prepared", p) :: rest)%string [] =
@@ -376,14 +377,11 @@ Theorem C16_source_render_csv_refs :
 Proof. exact csv_refs. Qed.
 Print Assumptions C16_source_render_csv_refs.
 
-(* ---- render_text (PARTIAL).  Intended full statement, not yet proved: running render_text_fn leaves in `file`
-     f0 ++ unlines (text_lines o desc rows)   [= f0 ++ the text of Render.render_text].
-   Proved: its first six statements (text_prefix: RenderContext, renderers, headers, alignment, the priming loop, widths),
-   for all options, descriptions and rows: widths = Render.table_widths (max(1, narrow or len(header), len(nullvalue),
-   prepare()) per column), the renderers have seen exactly Render.column of their column (col_states, through
-   C16-level lemma col_states_fold used in the proof), alignment = Render.align_of.
-   Missing: the style selection (boxed / unicode), the header line (truncate + center), the loop writing one padded
-   line per line of render_rows, top / hline / bottom. *)
+(* ---- render_text.  First its first six statements on their own (text_prefix: RenderContext, renderers, headers,
+   alignment, the priming loop, widths), for all options, descriptions and rows: widths = Render.table_widths
+   (max(1, narrow or len(header), len(nullvalue), prepare()) per column), the renderers have seen exactly Render.column of
+   their column (col_states, C16_source_priming_is_col_states), alignment = Render.align_of.  Then the whole function
+   (C16_source_render_text below). *)
 Theorem C16_source_render_text_widths_partial : forall (call_ref : nat -> list pv -> pv) (quant : dec -> str -> dec)
     (numfmt : list (dec * str) -> dec -> str -> str) (dc : pv) (o : opts),
   (forall t c, call_ref 0%nat [enc_rdtype t; c] = robj t c []) ->
@@ -408,3 +406,181 @@ Theorem C16_source_priming_is_col_states : forall (quant : dec -> str -> dec) (o
   map (rstate_of quant o) (fold_left upd rows (map (fun d => (snd d, [])) desc)) = col_states quant o desc rows.
 Proof. exact col_states_fold. Qed.
 Print Assumptions C16_source_priming_is_col_states.
+
+(* The whole of render_text: run on the columns, the rows, a file holding f0 and the options o (expand, boxed, spaced,
+   listsep, nullvalue, narrow, unicode), the translated body leaves in `file` f0 followed by exactly the text of
+   Render.render_text: unlines (text_lines o desc rows) - top rule when boxed, the header line (each header cut to its
+   column width and centred with CPython's rounding, joined by the column separator inside the frame), the rule under it,
+   one line per line of render_rows with every cell padded to its column width on the side its datatype's alignment says,
+   bottom rule when boxed.  C16_rectangular / C16_fixed_offsets_no_truncation / C16_header_* / C16_check_table_sound are
+   stated over this text_lines.  Hypotheses as for render_csv: _get_renderer builds a renderer that has seen nothing;
+   calling render_rows is interpreting its translation.  Primitives (Model/PrimsRender.v): join / center / ljust / rjust
+   are Render.v's own, rjust with a fill character, '{}'-template format, zip of three sequences, file.write appends. *)
+Theorem C16_source_render_text : forall (call_ref : nat -> list pv -> pv) (quant : dec -> str -> dec)
+    (numfmt : list (dec * str) -> dec -> str -> str) (dc : pv) (o : opts),
+  (forall t c, call_ref 0%nat [enc_rdtype t; c] = robj t c []) ->
+  (forall a b c, call_ref 1%nat [a; b; c] =
+                 res_val (call_function call_ref (prims_top quant numfmt) render_rows_fn [a; b; c])) ->
+  forall (desc : list (str * dtype)) (rows : list (list cellv)) (f0 : str),
+  exists s',
+    PyMini.exec_block call_ref (prims_top quant numfmt) {| locals := text_locals dc o desc rows f0; fields := [] |}
+      (f_body render_text_fn) = Ok (Next s') /\
+    lookup "file"%string (locals s') = Some (enc_s (f0 ++ unlines (text_lines quant numfmt o desc rows))).
+Proof. exact render_text_src. Qed.
+Print Assumptions C16_source_render_text.
+
+Theorem C16_source_render_text_is_model : forall (call_ref : nat -> list pv -> pv) (quant : dec -> str -> dec)
+    (numfmt : list (dec * str) -> dec -> str -> str) (dc : pv) (o : opts),
+  (forall t c, call_ref 0%nat [enc_rdtype t; c] = robj t c []) ->
+  (forall a b c, call_ref 1%nat [a; b; c] =
+                 res_val (call_function call_ref (prims_top quant numfmt) render_rows_fn [a; b; c])) ->
+  forall (desc : list (str * dtype)) (rows : list (list cellv)) (f0 text : str),
+  render_text quant numfmt o desc rows = Some text ->
+  exists s',
+    PyMini.exec_block call_ref (prims_top quant numfmt) {| locals := text_locals dc o desc rows f0; fields := [] |}
+      (f_body render_text_fn) = Ok (Next s') /\
+    lookup "file"%string (locals s') = Some (enc_s (f0 ++ text)).
+Proof. exact render_text_src_model. Qed.
+Print Assumptions C16_source_render_text_is_model.
+
+(* the parameters of the translated function are those text_locals binds, in this order; its opaque callables are
+   exactly the two the hypotheses speak about *)
+Theorem C16_source_render_text_signature :
+  f_params render_text_fn = map fst (text_locals PNone (mkopts false false false false false [] []) [] [] []) /\
+  nth_error refs 0 = Some (0%nat, "beanquery.query_render._get_renderer"%string) /\
+  nth_error refs 1 = Some (1%nat, "beanquery.query_render.render_rows"%string).
+Proof. split; [reflexivity|exact text_refs]. Qed.
+Print Assumptions C16_source_render_text_signature.
+
+(* Non-vacuity: the translated render_text run by the interpreter (boxed, unicode, wide headers, a right-aligned int column
+   with a NULL) writes what the model renders *)
+Example C16_source_render_text_example :
+  let o := mkopts true true false false false [45] [32; 32] in
+  let desc := [([110; 117; 109]%Z, TInt); ([115]%Z, TStr)] in
+  let rows := [[CInt (-5); CStr [97; 98]%Z]; [CNull; CStr [99]%Z]] in
+  run_render_text o desc rows = render_text no_quant no_numfmt o desc rows /\
+  run_render_text (mkopts false false true false true [] [32; 32]) desc rows =
+    render_text no_quant no_numfmt (mkopts false false true false true [] [32; 32]) desc rows /\
+  render_text no_quant no_numfmt o desc rows <> None.
+Proof. repeat split; try (vm_compute; reflexivity). vm_compute. discriminate. Qed.
+
+(* ---------------------------------------------------------------------------------------------------------------
+   AmountRenderer / PositionRenderer (and DecimalRenderer.__init__), tied by translation.  Beancount's DisplayContext stays
+   abstract exactly as in the model: [quant] is the ledger's quantiser (self.quantize, an opaque callable kq), [numfmt] the
+   column formatter (Model/PrimsRender.v prims_amt: DisplayContext() collects the (number, currency) pairs update() is
+   called with, .build(Align.DOT, Precision.MAXIMUM) applied to (number, currency) is numfmt of those pairs).  The
+   renderer's state is Render.astate / pstate; amt_env / amt_ready / pos_env / pos_ready are the objects' fields. *)
+Theorem C16_source_decimal_init : forall (call_ref : nat -> list pv -> pv) (ctx : pv),
+  PyMini.bind (call_method call_ref prims_render render_base_init [] [ctx])
+       (fun r => call_method call_ref prims_render render_decimal_init_tail (fst r) [ctx]) =
+  Ok (dec_fields (PInt 0) (0, 0)%Z [], PNone).
+Proof. exact decimal_init_src. Qed.
+Print Assumptions C16_source_decimal_init.
+
+Theorem C16_source_amount_init : forall (call_ref : nat -> list pv -> pv) (numfmt : list (dec * str) -> dec -> str -> str)
+    (kq : nat) (o : opts),
+  let ctx := enc_ctx (PTuple [PInt 67; PRef kq]) o in
+  PyMini.bind (call_method call_ref (prims_amt numfmt) render_base_init [] [ctx])
+       (fun r => call_method call_ref (prims_amt numfmt) render_amount_init_tail (fst r) [ctx]) =
+  Ok (amt_env kq (PInt 0) (PBool false) a_init [], PNone).
+Proof. exact amount_init_src. Qed.
+Print Assumptions C16_source_amount_init.
+
+(* update = Render.a_update: the number is quantised by the ledger's context BEFORE it reaches the column's DisplayContext *)
+Theorem C16_source_amount_update : forall (call_ref : nat -> list pv -> pv) (quant : dec -> str -> dec)
+    (numfmt : list (dec * str) -> dec -> str -> str) (kq : nat),
+  (forall d c, call_ref kq [PV (VDec d); PV (VStr c)] = PV (VDec (quant d c))) ->
+  forall (mw prep : pv) (st : astate) (a : amt) (tail : env),
+  call_method call_ref (prims_amt numfmt) render_amount_update (amt_env kq mw prep st tail) [enc_amt a] =
+  Ok (amt_env kq mw prep (a_update quant st a) tail, PNone).
+Proof. exact amount_update_src. Qed.
+Print Assumptions C16_source_amount_update.
+
+Theorem C16_source_amount_column : forall (call_ref : nat -> list pv -> pv) (quant : dec -> str -> dec)
+    (numfmt : list (dec * str) -> dec -> str -> str) (kq : nat),
+  (forall d c, call_ref kq [PV (VDec d); PV (VStr c)] = PV (VDec (quant d c))) ->
+  forall (vals : list amt) (mw prep : pv) (st : astate) (tail : env),
+  run_updates_p call_ref (prims_amt numfmt) render_amount_update (amt_env kq mw prep st tail) (map enc_amt vals) =
+  Ok (amt_env kq mw prep (fold_left (a_update quant) vals st) tail).
+Proof. exact amount_column_src. Qed.
+Print Assumptions C16_source_amount_column.
+
+(* prepare (its own statements, then ColumnRenderer.prepare) = Render.a_width; no commodity is called '__default__' *)
+Theorem C16_source_amount_prepare : forall (call_ref : nat -> list pv -> pv)
+    (numfmt : list (dec * str) -> dec -> str -> str) (kq : nat) (p : pv) (st : astate), no_default st ->
+  PyMini.bind (call_method call_ref (prims_amt numfmt) render_amount_prepare_head (amt_env kq (PInt 0) p st []) [])
+       (fun r => call_method call_ref (prims_amt numfmt) render_base_prepare (fst r) []) =
+  Ok (amt_ready numfmt kq st, PInt (Z.of_nat (a_width numfmt st))).
+Proof. exact amount_prepare_src. Qed.
+Print Assumptions C16_source_amount_prepare.
+
+Theorem C16_source_amount_format : forall (call_ref : nat -> list pv -> pv)
+    (numfmt : list (dec * str) -> dec -> str -> str) (kq : nat) (st : astate) (a : amt),
+  call_method call_ref (prims_amt numfmt) render_amount_format (amt_ready numfmt kq st) [enc_amt a] =
+  Ok (amt_ready numfmt kq st, PV (VStr (a_format numfmt st a))).
+Proof. exact amount_format_src. Qed.
+Print Assumptions C16_source_amount_format.
+
+(* PositionRenderer: its two owned AmountRenderers run AmountRenderer's translated methods (Model/PrimsRenderPos.v) *)
+Theorem C16_source_position_init : forall (call_ref : nat -> list pv -> pv)
+    (numfmt : list (dec * str) -> dec -> str -> str) (kq : nat) (ctx : pv) (ka : nat),
+  call_ref ka [ctx] = fresh_amt kq a_init -> ka = 2%nat ->
+  PyMini.bind (call_method call_ref (prims_pos call_ref numfmt) render_base_init [] [ctx])
+       (fun r => call_method call_ref (prims_pos call_ref numfmt) render_position_init_tail (fst r) [ctx]) =
+  Ok (pos_env kq (PInt 0) (PBool false) p_init, PNone).
+Proof. exact position_init_src. Qed.
+Print Assumptions C16_source_position_init.
+
+Theorem C16_source_position_update : forall (call_ref : nat -> list pv -> pv) (quant : dec -> str -> dec)
+    (numfmt : list (dec * str) -> dec -> str -> str) (kq : nat),
+  (forall d c, call_ref kq [PV (VDec d); PV (VStr c)] = PV (VDec (quant d c))) ->
+  forall (mw prep : pv) (st : pstate) (p : posn),
+  call_method call_ref (prims_pos call_ref numfmt) render_position_update (pos_env kq mw prep st) [enc_posn p] =
+  Ok (pos_env kq mw prep (p_update quant st p), PNone).
+Proof. exact position_update_src. Qed.
+Print Assumptions C16_source_position_update.
+
+Theorem C16_source_position_column : forall (call_ref : nat -> list pv -> pv) (quant : dec -> str -> dec)
+    (numfmt : list (dec * str) -> dec -> str -> str) (kq : nat),
+  (forall d c, call_ref kq [PV (VDec d); PV (VStr c)] = PV (VDec (quant d c))) ->
+  forall (vals : list posn) (mw prep : pv) (st : pstate),
+  run_updates_p call_ref (prims_pos call_ref numfmt) render_position_update (pos_env kq mw prep st) (map enc_posn vals) =
+  Ok (pos_env kq mw prep (fold_left (p_update quant) vals st)).
+Proof. exact position_column_src. Qed.
+Print Assumptions C16_source_position_column.
+
+Theorem C16_source_position_prepare : forall (call_ref : nat -> list pv -> pv)
+    (numfmt : list (dec * str) -> dec -> str -> str) (kq : nat) (mw prep : pv) (st : pstate),
+  no_default (p_u st) -> no_default (p_c st) ->
+  PyMini.bind (call_method call_ref (prims_pos call_ref numfmt) render_position_prepare_head (pos_env kq mw prep st) [])
+       (fun r => call_method call_ref (prims_pos call_ref numfmt) render_base_prepare (fst r) []) =
+  Ok (pos_ready numfmt kq st, PInt (Z.of_nat (p_width numfmt st))).
+Proof. exact position_prepare_src. Qed.
+Print Assumptions C16_source_position_prepare.
+
+Theorem C16_source_position_format : forall (call_ref : nat -> list pv -> pv)
+    (numfmt : list (dec * str) -> dec -> str -> str) (kq : nat) (st : pstate) (p : posn),
+  call_method call_ref (prims_pos call_ref numfmt) render_position_format (pos_ready numfmt kq st) [enc_posn p] =
+  Ok (pos_ready numfmt kq st, PV (VStr (p_format numfmt st p))).
+Proof. exact position_format_src. Qed.
+Print Assumptions C16_source_position_format.
+
+Theorem C16_source_amount_class_ref : nth_error refs 2 = Some (2%nat, "beanquery.query_render.AmountRenderer"%string).
+Proof. exact amount_refs. Qed.
+Print Assumptions C16_source_amount_class_ref.
+
+(* Non-vacuity: a quantiser oracle exists (identity), a column of two amounts is run through the translated
+   update / prepare / format with a toy formatter *)
+Example C16_source_amount_example :
+  let cr : nat -> list pv -> pv := fun _ args => match args with [d; _] => d | _ => PNone end in
+  let nf : list (dec * str) -> dec -> str -> str := fun ups d c => show_int (dcoef d) in
+  let vals := [(mkdec false 12 0, [85; 83; 68]%Z); (mkdec false 7 0, [69; 85]%Z)] in
+  (forall d c, cr 0%nat [PV (VDec d); PV (VStr c)] = PV (VDec (no_quant d c))) /\
+  no_default (fold_left (a_update no_quant) vals a_init) /\
+  PyMini.bind (run_updates_p cr (prims_amt nf) render_amount_update (amt_env 0 (PInt 0) (PBool false) a_init []) (map enc_amt vals))
+    (fun flds => PyMini.bind (PyMini.bind (call_method cr (prims_amt nf) render_amount_prepare_head flds [])
+                                (fun r => call_method cr (prims_amt nf) render_base_prepare (fst r) []))
+       (fun r => PyMini.bind (call_method cr (prims_amt nf) render_amount_format (fst r) [enc_amt (mkdec false 7 0, [69; 85]%Z)])
+                   (fun r2 => Ok (snd r, snd r2)))) =
+  Ok (PInt 5, PV (VStr [55; 32; 69; 85; 32]%Z)).
+Proof. split; [reflexivity|]. split; [repeat constructor|vm_compute; reflexivity]. Qed.
